@@ -1,5 +1,6 @@
 # -*- coding: utf-8 -*-
 """C01 -- the parser accepts exactly the grammar and fails only with syntax errors."""
+import os
 import re
 import sys
 
@@ -201,6 +202,15 @@ def generate(rng, tier):
              for _ in range(300 if quick else 20000)]
     for s in seq5:
         out.append(case("doc", (False, False, False), s, "enum:tokens-sample"))
+    # every production, deterministically: prefixes / one-token deletions / body-less shapes of every
+    # definition and extension kind, alone and next to other definitions, under all 8 flag triples
+    # (run_impl feeds each as str and as utf-8 bytes).  quick keeps the two "between" contexts for the
+    # body-less shapes only.
+    for text, label in G.production_forms():
+        if quick and "+between" in label and not label.startswith("bodyless"):
+            continue
+        for flags in G.FLAG_TRIPLES:
+            out.append(case("doc", flags, text, "enum:production-" + label))
     return out
 
 
@@ -221,7 +231,8 @@ def _run_once(entry, flags, src):
             return {"tokens": [[TOKEN_IDS[type(t)], t.value, t.start, t.end] for t in toks]}
         return {"accept": True}
     except GraphQLSyntaxError as e:
-        o = {"reject": ERR_KINDS.get(type(e), 0), "cls": type(e).__name__, "position": e.position}
+        o = {"reject": ERR_KINDS.get(type(e), 0), "cls": type(e).__name__, "position": e.position,
+             "site": _raise_site(e)}
         render = []
         try:
             s = str(e)
@@ -246,6 +257,32 @@ def _run_once(entry, flags, src):
         return o
     except Exception as e:  # noqa
         return {"other": type(e).__name__, "msg": str(e)[:200]}
+
+
+def _raise_site(e):
+    """file:line of the innermost frame of the library's lexer/parser the error was raised from"""
+    tb, site = e.__traceback__, ""
+    while tb is not None:
+        fn = tb.tb_frame.f_code.co_filename
+        if fn.endswith(("lang/parser.py", "lang/lexer.py")):
+            site = "%s:%d" % (os.path.basename(fn), tb.tb_lineno)
+        tb = tb.tb_next
+    return site
+
+
+def _static_raise_sites():
+    """every `raise` statement of lang/parser.py and lang/lexer.py (by syntax tree)"""
+    import ast as pyast
+    import py_gql.lang.parser as P
+    import py_gql.lang.lexer as L
+    sites = []
+    for mod in (P, L):
+        fn = mod.__file__
+        tree = pyast.parse(open(fn, encoding="utf8").read())
+        for node in pyast.walk(tree):
+            if isinstance(node, pyast.Raise):
+                sites.append("%s:%d" % (os.path.basename(fn), node.lineno))
+    return sorted(sites)
 
 
 def run_impl(c):
@@ -385,6 +422,20 @@ def extra_evidence(cases, obss):
         verdicts[key] = verdicts.get(key, 0) + 1
         if "reject" in o:
             kinds[o["cls"]] = kinds.get(o["cls"], 0) + 1
-    return {"distribution": {"origins": origins, "verdict_by_stream": verdicts, "error_classes": kinds,
+    reached = {False: set(), True: set()}
+    for c, o in zip(cases, obss):
+        if o.get("site") and c["entry"] != "named":
+            reached[bool(c["flags"][0])].add(o["site"])
+    static = _static_raise_sites()
+    sites = {"static_raise_statements": len(static),
+             "reached_with_locations": len(reached[False] & set(static)),
+             "reached_with_no_location": len(reached[True] & set(static)),
+             "parser_sites_not_reached_with_locations":
+                 [x for x in static if x.startswith("parser") and x not in reached[False]],
+             "parser_sites_not_reached_with_no_location":
+                 [x for x in static if x.startswith("parser") and x not in reached[True]],
+             "lexer_sites_not_reached": [x for x in static if x.startswith("lexer")
+                                         and x not in (reached[False] | reached[True])]}
+    return {"raise_sites": sites, "distribution": {"origins": origins, "verdict_by_stream": verdicts, "error_classes": kinds,
                              "entries": entries, "flag_triples": flags,
                              "non_ascii_texts": sum(1 for c in cases if any(ord(ch) > 127 for ch in c["text"]))}}
